@@ -29,7 +29,7 @@ def gen(ctx, r):
     n = 4000 if ctx.quick() else 200000
     for _ in range(n):
         lo = r.choice([0, -50, -100, 10])
-        hi = lo + r.choice([1, 2, 10, 100, 200])
+        hi = lo + r.choice([0, 1, 2, 10, 100, 200])            # (0: a movement range of no width - what initSlot hands Zones when the limit leaves no room on an axis)
         kind = r.choice(["xy", "sd"])
         ops = []
         for _ in range(r.randrange(1, 25)):
@@ -43,7 +43,7 @@ def gen(ctx, r):
                                                             r.choice([0, 1, 2, 4, -1]), r.randrange(-20, 20), r.choice([0, 2, 4]), r.choice([0, 1, 8]), r.randrange(2)))
             else:
                 ops.append("c,%d" % r.randrange(lo - 10, hi + 10))
-        ops.append("c,%d" % r.randrange(lo, hi))
+        ops.append("c,%d" % (r.randrange(lo, hi) if hi > lo else lo))
         lines.append("zones %s %d %d %d %s" % (kind, lo, hi, r.choice([0, 1, 4]), ";".join(ops)))
     return lines
 
@@ -77,6 +77,8 @@ def run(ctx):
                 cs, iv, ok, why = [], [], False, "unparsable output " + i[:60]
             prev = Fraction(lo)
             for x, xm, _ in iv:
+                if lo == hi and x == xm == lo and len(iv) == 1:
+                    break                       # the single point of a range of no width
                 if not (prev <= x < xm <= hi):
                     ok, why = False, "interval list not sorted/disjoint/non-empty/inside [%d,%d]: %s" % (lo, hi, i[-200:])
                     break
@@ -89,6 +91,8 @@ def run(ctx):
                     x0, x1 = max(int(a[1]), lo), min(int(a[2]), hi)
                     if x0 < x1:
                         excluded.append((x0, x1))
+                    if lo == hi and int(a[1]) < lo < int(a[2]):
+                        excluded.append((int(a[1]), int(a[2])))       # a range of no width: the point lies strictly inside what was excluded
                 elif a[0] == "c" and k < len(cs):
                     p, c = cs[k]
                     k += 1
